@@ -812,6 +812,83 @@ def _nan_derived(a, b):
     return True
 
 
+# ------------------------------------------------------------------------------- NaN-sign sensitivity (dynamic)
+_NAN_ARITH = {"add", "sub", "mul", "div", "sqrt", "min", "max", "ceil", "floor", "trunc", "nearest"}
+
+
+def _nan_sign_variant(m, negative):
+    """Copy of module m in which every float ARITHMETIC result (fNN.add/sub/mul/div/sqrt/min/max/ceil/floor/trunc/nearest, demote,
+    promote — the instructions whose NaN results have a sign the specification leaves open) is replaced, when it is a NaN, by the
+    canonical NaN with the chosen sign.  For every execution the specification allows this is again an allowed execution."""
+    import copy
+    from wasmgen.wasm_ast import Instr, F32, F64
+    mm = copy.deepcopy(m)
+    mm.meta = getattr(m, "meta", None)
+    canon = {F32: 0x7fc00000 | (0x80000000 if negative else 0), F64: 0x7ff8000000000000 | (0x8000000000000000 if negative else 0)}
+    for f in mm.funcs:
+        nparams = len(mm.types[f.type].params)
+        base = nparams + len(f.local_types())
+        f.locals.append((1, F32))
+        f.locals.append((1, F64))
+        tmp = {F32: base, F64: base + 1}
+
+        def fix(body):
+            out = []
+            for ins in body:
+                if ins.body is not None:
+                    ins.body = fix(ins.body)
+                if ins.else_body is not None:
+                    ins.else_body = fix(ins.else_body)
+                out.append(ins)
+                op = ins.op
+                ty = F32 if op.startswith("f32.") else F64 if op.startswith("f64.") else None
+                if ty is not None and (op.split(".", 1)[1] in _NAN_ARITH or op in ("f32.demote_f64", "f64.promote_f32")):
+                    pre = "f32" if ty is F32 else "f64"
+                    t = tmp[ty]
+                    out += [Instr("local.set", t), Instr(pre + ".const", canon[ty]), Instr("local.get", t), Instr("local.get", t),
+                            Instr("local.get", t), Instr(pre + ".ne"), Instr("select")]
+            return out
+        f.body = fix(f.body)
+    return mm
+
+
+_NAN_SENS_CACHE = {}
+
+
+def nan_sign_sensitive_from(spec, m, imp, calls):
+    """Index of the first call of the script whose V8 outcome (result or host calls) depends on the SIGN the arithmetic NaNs take
+    (module instrumented to give them all a positive / all a negative sign; both are executions the specification allows), or None."""
+    key = (spec_id(spec), len(calls))
+    if key in _NAN_SENS_CACHE:
+        return _NAN_SENS_CACHE[key]
+    res = None
+    try:
+        if any(i.op in NAN_LEAK_OPS for f in m.funcs for i in _walk(f.body)):
+            runs = []
+            for neg in (False, True):
+                mv = _nan_sign_variant(m, neg)
+                if len(mv.all_mems()) > 1:
+                    mv = single_memory_variant(mv)
+                runs.append(v8.run(encode(mv), calls, imp, mem_hash=False, module=mv))
+            a, b = runs
+            if a.instantiate != b.instantiate:
+                res = 0
+            else:
+                la, lb = list(a.host_log), list(b.host_log)
+                for k in range(len(calls)):
+                    ra = a.results[k] if k < len(a.results) else None
+                    rb = b.results[k] if k < len(b.results) else None
+                    if ra != rb:
+                        res = k
+                        break
+                if la != lb:
+                    res = 0          # the arguments handed to imported functions differ somewhere (the log does not say in which call): be conservative from the start
+    except Exception:
+        res = None
+    _NAN_SENS_CACHE[key] = res
+    return res
+
+
 def nan_leak_filter(spec, calls_made, diffs):
     """Drop result differences that the specification allows: the called function can reach (statically) an instruction that makes the
     sign/payload of an arithmetic NaN visible in non-NaN bits (fNN.copysign, iNN.reinterpret_fNN; NAN_LEAK_OPS) and the two results
@@ -830,6 +907,13 @@ def nan_leak_filter(spec, calls_made, diffs):
     except Exception:
         return diffs, 0
     kept, dropped, tainted_from = [], 0, None
+    # dynamic evidence: from the first call whose outcome in V8 itself changes with the sign given to arithmetic NaNs, the script's
+    # observations are not determined by the specification
+    try:
+        calls_b = [(n_.encode("latin-1") if isinstance(n_, str) else n_, [tuple(a_) for a_ in args_]) for n_, args_ in calls_made]
+        tainted_from = nan_sign_sensitive_from(spec, m, imp, calls_b)
+    except Exception:
+        tainted_from = None
     for d in sorted(diffs, key=lambda d: (d.get("call") is None, d.get("call") or 0)):
         c = d.get("call")
         if tainted_from is not None and (c is None or c >= tainted_from):
